@@ -13,7 +13,7 @@ INFO = {
                    "Fr::from(BigUint::from_bytes_le(in[0..32])) and the 8-byte one is usize::to_le_bytes zero-padded / u64::from_le_bytes; no "
                    "big-endian constructor is reachable from any codec; deserialize_witness returns Ok only when len == bytes consumed "
                    "(missing/trailing bytes clause); the JSON witness uses the same compression mode in both directions. Layout table "
-                   "transcribed from the doc comments of rln/src/protocol.rs and rln/src/public.rs.",
+                   "transcribed from the doc comments of rln/src/protocol.rs and rln/src/public.rs. R10-5 whole-message I/O: no function of rln::public / protocol / utils / hashers calls Read::read or Write::write (partial transfer); inventory over the MIR call terminators.",
     "not_decided": "value-level losslessness rests on the opaque BigUint/Fr conversions and Vec::resize; ark's own Vec<usize> compressed format",
     "assumptions": ["BigUint::to_bytes_le/from_bytes_le, Vec::resize, usize::to_le_bytes, u64::from_le_bytes have their documented meaning"],
 }
@@ -78,6 +78,33 @@ def range_guard(a, v):
     return a[0] == "b" and a[1][0] == "cmp" and a[1][1] in ("gt", "ge")
 
 
+PARTIAL_IO_RX = r"(std::io|ark_serialize|ark_std::io)::(Write::(write|write_vectored)|Read::(read|read_vectored))$"
+IO_FILES = ("rln/src/public.rs", "rln/src/protocol.rs", "rln/src/utils.rs", "rln/src/hashers.rs")
+
+
+def whole_io(ctx, fb, cfg):
+    """R10-5: the byte interfaces read and write whole messages: no function of the public API layer calls Read::read or Write::write
+    (which may transfer only part of the buffer); only read_to_end / read_exact / write_all and the arkworks (de)serialisers are used"""
+    n = 0
+    bad = []
+    for path, it in sorted(fb.items.items()):
+        if it.kind not in ("Fn", "AssocFn", "Closure") or it.file not in IO_FILES or it.get("test"):
+            continue
+        for b in it.blocks:
+            t = b["term"]
+            if t["k"] != "call":
+                continue
+            nm = t.get("resolved") or t.get("callee") or ""
+            cal = t.get("callee") or ""
+            if re.search(r"(Read|Write)::\w+$", cal) or re.search(r"(Read|Write)::\w+$", nm):
+                n += 1
+            if re.search(PARTIAL_IO_RX, cal) or re.search(PARTIAL_IO_RX, nm):
+                bad.append((path, cal.split("::")[-1], t["sp"][0]))
+    ctx.check(not bad, "R10-5", "whole-message I/O[%s]" % cfg, "%d Read/Write calls in the API layer, all read_to_end / read_exact / write_all" % n,
+              "partial transfers: %s - a reader/writer that moves fewer bytes than asked makes the call proceed with a truncated message" % bad[:4])
+    ctx.floor("io-calls[%s]" % cfg, n, 40 if cfg != "stateless" else 20)
+
+
 def run(ctx):
     cfgs = ["default"] if ctx.tier == "quick" else ["default", "stateless", "optimal"]
     ctx.prefetch(cfgs + ["fixtures"])
@@ -89,6 +116,7 @@ def run(ctx):
         requests(ctx, fb, cfg)
         identities(ctx, fb, cfg)
         json_codec(ctx, fb, cfg)
+        whole_io(ctx, fb, cfg)
         if cfg != "stateless":
             tree_exports(ctx, fb, cfg)
         from . import c04
